@@ -59,6 +59,7 @@ ReadItem(p, r, o, m) ==      \* o: observed dataset record, m: model object
   \* never written, but resized: the space Resize added reads as zero - so the read succeeds, returns the whole extent, and
   \* (rank 1, where positions are indices) every element beyond the smallest extent the dataset has had is 0
   ELSE IF ~m.written /\ m.grownbare # <<>> /\ r = "f64" /\ m.dt.cls \in {0, 1} /\ m.dt.size \in {4, 8}
+          /\ (\A k \in DOMAIN m.dims : m.dims[k] <= 100000) /\ Prod(m.dims) <= 1000000
        THEN IF got.res # "ok" THEN <<[diag |-> "read-error", p |-> p, read |-> r, dt |-> m.dt, chunked |-> m.chunk # <<>>, neverwritten |-> TRUE]>>
             ELSE IF got.data.n # Prod(m.dims)
                     \/ (Len(m.dims) = 1 /\ Len(got.data.vals) = got.data.n /\ \E i \in (m.grownbare[1] + 1)..got.data.n : got.data.vals[i] # 0)
@@ -209,6 +210,7 @@ Step(e) ==
                                        ![id].regrown = m.regrown \/ (m.lo # <<>> /\ \E k \in DOMAIN e.dims : e.dims[k] > m.lo[k] /\ m.lo[k] < MaxWritten(m, k)),
                                        ![id].data = IF ~m.written THEN m.data
                                                     ELSE IF m.data.f64.n > 0 /\ Len(m.data.f64.vals) = m.data.f64.n
+                                                            /\ (\A k \in DOMAIN e.dims : e.dims[k] <= 4096) /\ Prod(e.dims) <= 65536
                                                     THEN [f64 |-> [n |-> Prod(e.dims), dig |-> "vals",
                                                                    vals |-> ResizeVals(m.data.f64.vals, m.dims, e.dims)],
                                                           str |-> NoData, cmp |-> NoData]
